@@ -1,9 +1,182 @@
-"""icgsa.mutate -- self-validation of the rules on AST-computed variants (thorough tier)."""
+"""icgsa.mutate -- self-validation of the rules (thorough tier).
+
+For the CURRENT tree, re-analyse in-memory variants of single functions:
+
+* breaking variants: one construct that a rule guards is broken (the variant still parses; most also still
+  pass the repository's test-suite).  The property's rules must report a finding of the expected rule.
+* benign twins: a behaviour-preserving rewrite.  The rules must stay silent (no finding, nothing undecided).
+
+A variant is computed on the AST: the function is located by qualified name, printed in the canonical
+``ast.unparse`` form (independent of the repository's layout and comments), one anchored fragment is
+rewritten, and the result is parsed back into the module tree.  A variant whose anchor is absent on the
+current tree is *skipped and listed* (the tree has changed there), never counted as a success.
+
+Nothing is executed: variants exist only as ASTs handed to the same static rules.
+"""
 from __future__ import annotations
 
-from .core import Program
-from .report import Collector
+import ast
+import copy
+from dataclasses import dataclass, field
+
+from .core import AnalysisError, Program
+from .report import Collector, load_known
 
 
-def self_validate(prog: Program, pid: str, col: Collector, errors: list[str]) -> dict:
-    return {"self_validation": "not built yet"}
+@dataclass
+class Variant:
+    name: str
+    props: tuple
+    file: str                  # repo-relative path
+    func: str                  # "func" or "Class.method"; "" = module level statement list
+    old: str
+    new: str
+    expect: tuple = ()         # rule ids of which at least one must fire (breaks); () = any finding
+    kind: str = "break"        # break | twin
+    count: int = 1             # which occurrence (1-based); 0 = all
+
+
+def _find(tree: ast.Module, func: str):
+    parts = func.split(".")
+    body = tree.body
+    node = None
+    parent_body = None
+    for p in parts:
+        found = None
+        for n in _iter_defs(body):
+            if isinstance(n, (ast.FunctionDef, ast.ClassDef)) and n.name == p:
+                found = n
+                break
+        if found is None:
+            return None, None
+        parent_body = body
+        node = found
+        body = found.body
+    return node, parent_body
+
+
+def _iter_defs(body):
+    for n in body:
+        yield n
+        if isinstance(n, ast.If):
+            yield from _iter_defs(n.body)
+            yield from _iter_defs(n.orelse)
+
+
+def apply_variant(prog: Program, v: Variant):
+    """Returns the override dict {rel: tree} or None if the anchor is absent."""
+    mod = None
+    for m in prog.modules.values():
+        if m.rel() == v.file or str(m.path).endswith(v.file):
+            mod = m
+    if mod is None:
+        return None
+    tree = copy.deepcopy(mod.tree)
+    if v.func:
+        node, parent = _find(tree, v.func)
+        if node is None:
+            return None
+        text = ast.unparse(node)
+    else:
+        text = ast.unparse(tree)
+    if v.old not in text:
+        return None
+    if v.count == 0:
+        new_text = text.replace(v.old, v.new)
+    else:
+        idx = -1
+        for _ in range(v.count):
+            idx = text.find(v.old, idx + 1)
+            if idx < 0:
+                return None
+        new_text = text[:idx] + v.new + text[idx + len(v.old):]
+    try:
+        new_ast = ast.parse(new_text)
+    except SyntaxError as e:
+        raise AnalysisError(f"variant {v.name} does not parse: {e}")
+    if v.func:
+        new_node = new_ast.body[0]
+        # keep positions roughly meaningful
+        ast.increment_lineno(new_node, getattr(node, "lineno", 1) - 1)
+        for i, n in enumerate(parent):
+            if n is node:
+                parent[i] = new_node
+                break
+        else:
+            # nested under an ``if``: replace by walking
+            for holder in ast.walk(tree):
+                for fld in ("body", "orelse"):
+                    lst = getattr(holder, fld, None)
+                    if isinstance(lst, list):
+                        for i, n in enumerate(lst):
+                            if n is node:
+                                lst[i] = new_node
+    else:
+        tree = new_ast
+    ast.fix_missing_locations(tree)
+    return {mod.rel(): tree}
+
+
+def reset_caches() -> None:
+    from .rules import common, bounds, gameplay
+    common._FT_CACHE.clear()
+    bounds._COMP_CACHE.clear()
+    gameplay._LAZY_FUNCS.clear()
+
+
+def analyse_variant(prog: Program, pid: str, overrides: dict):
+    from .__main__ import run_rules
+    reset_caches()
+    p2 = Program(prog.root, overrides=overrides)
+    col = Collector(pid)
+    errs = run_rules(p2, pid, col)
+    reset_caches()
+    return col, errs
+
+
+def self_validate(prog: Program, pid: str, base: Collector, errors: list[str]) -> dict:
+    from .variants import VARIANTS
+    mine = [v for v in VARIANTS if pid in v.props]
+    base_keys = {f.key for f in base.findings}
+    base_und = {(u["rule"], u["function"], u["message"]) for u in base.undecided}
+    results = []
+    detected = silent = skipped = 0
+    failures = []
+    for v in mine:
+        ov = apply_variant(prog, v)
+        if ov is None:
+            skipped += 1
+            results.append({"variant": v.name, "kind": v.kind, "status": "skipped (anchor absent on this tree)"})
+            continue
+        col, errs = analyse_variant(prog, pid, ov)
+        new = [f for f in col.findings if f.key not in base_keys]
+        new_und = [u for u in col.undecided if (u["rule"], u["function"], u["message"]) not in base_und]
+        if v.kind == "break":
+            hit = [f for f in new if not v.expect or f.rule in v.expect]
+            if hit:
+                detected += 1
+                results.append({"variant": v.name, "kind": "break", "status": "detected", "rule": hit[0].rule, "where": hit[0].where,
+                                "message": hit[0].message[:200]})
+            else:
+                failures.append(f"breaking variant '{v.name}' was not reported by {v.expect or 'any rule'} "
+                                f"(new findings: {[f.rule for f in new]}, undecided: {len(new_und)}, errors: {errs[:1]})")
+                results.append({"variant": v.name, "kind": "break", "status": "MISSED"})
+        else:
+            if not new and not new_und and not errs:
+                silent += 1
+                results.append({"variant": v.name, "kind": "twin", "status": "silent"})
+            else:
+                failures.append(f"benign twin '{v.name}' raised {[f.rule + ':' + f.message[:80] for f in new]} undecided={[u['message'][:80] for u in new_und]} errors={errs[:1]}")
+                results.append({"variant": v.name, "kind": "twin", "status": "ALARM"})
+    for f in failures:
+        errors.append("self-validation: " + f)
+    nb = sum(1 for v in mine if v.kind == "break")
+    nt = sum(1 for v in mine if v.kind == "twin")
+    return {
+        "self_validation": {
+            "breaking_variants": nb, "detected": detected, "benign_twins": nt, "silent": silent, "skipped": skipped,
+            "results": results,
+        },
+        "obligations_variants": nb + nt,
+        "discharged_variants": detected + silent,
+    }
